@@ -10,6 +10,8 @@ package fasthttp
 //@   property C40
 //@   mode skeleton
 //@   safety C40
+//@   loop 1:
+//@     invariant[no-nil-so-far] held(cc.mu) && forall j in [0, len(cc.cs)): cell(cc.cs, j) != 0
 
 // get: nil exactly when there is no client; otherwise the client chosen carries the lexicographically smallest
 // (pending+penalty, completed) pair among the values observed by this call, first minimum wins.
@@ -49,3 +51,36 @@ package fasthttp
 //@   ensures[bounded] r == (m <= 300)
 //@   ensures[excess-taken-back] !r ==> undone == 1
 //@   ensures[kept-when-counted] r ==> undone == 0
+
+// The client list: cs is only assigned with mu held, and whenever mu is free the list has no nil entry (get
+// dereferences every entry while scanning).
+//@ monitor LBClient mu
+//@   property C40
+//@   protects cs
+//@   inv[no-nil-client] forall j in [0, len(M.cs)): cell(M.cs, j) != 0
+
+// RemoveClients: order-preserving filter in place -- the kept clients are compacted to the front, the vacated tail is
+// cleared, and the list is cut to the kept ones.
+//@ func LBClient.RemoveClients results r
+//@   property C40
+//@   mode skeleton
+//@   nooverflow
+//@   on call value:rc -> drop:
+//@     nohavoc
+//@   end
+//@   loop 1:
+//@     invariant[compacted-front] 0 <= n && n <= _i && _i <= len(cc.cs) && held(cc.mu) && forall j in [0, n): cell(cc.cs, j) != 0
+//@     invariant[rest-still-valid] forall t in [_i, len(cc.cs)): cell(cc.cs, t) != 0
+//@   loop 2:
+//@     invariant[front-untouched] n <= i && held(cc.mu) && forall j in [0, n): cell(cc.cs, j) != 0
+//@   ensures[returns-new-length] r == len(cc.cs)
+
+//@ func lbClient.decPenalty
+//@   property C40
+//@   mode skeleton
+//@   ghost delta int = 0
+//@   on call atomic.AddUint32(_, d) -> v:
+//@     nohavoc
+//@     effect delta = delta + (d == 4294967295 ? -1 : d)
+//@   end
+//@   ensures[takes-one-penalty-back] delta == -1
